@@ -15,7 +15,7 @@ use crate::runner::*;
 use crate::shape::normal_eq;
 use crate::src::{mix3, Src};
 
-pub const RULE: &str = "tree-first expressions over all core forms (hint-steered by the generated document) printed in a random spelling, plus the cross product of every core-form compliance expression with every compliance document and 40 generated documents; oracle = independent reference evaluator; non-trivial = expression with >= 3 nodes whose reference result is neither null nor an empty container (distinct by expression text + document)";
+pub const RULE: &str = "tree-first expressions over all core forms (hint-steered by the generated document) printed in a random spelling, plus the cross product of every core-form compliance expression with every compliance document and 40 generated documents; oracle = independent reference evaluator; for a share of the cases the same tree also as a hand-built Ast (default and bare runtime) and the same document through every data-in route (parsed text, &Value, Value, Variable::try_from of both, Rcvar, &Rcvar, &Variable, a Rust value that reaches the serializer through the uncommon serde calls), all with identical outcome; non-trivial = expression with >= 3 nodes whose reference result is neither null nor an empty container (distinct by expression text + document)";
 
 /// Choose parentheses and whitespace for a generated tree.  Returns None when
 /// the tree has no spelling (counted as discard by the caller).
